@@ -122,8 +122,8 @@ class AuthSession(object):
         if response == b'*':
             raise AuthenticationCanceled()
         try:
-            return base64.b64decode(response)
-        except TypeError:
+            return base64.b64decode(response, validate=True)
+        except (TypeError, ValueError):
             raise InvalidAuthString()
 
     def server_attempt(self, arg):
